@@ -555,19 +555,24 @@ fn bn_digit_to_en_digit(digit: char, line: u32, src_file_path: &str) -> Result<f
 fn skip_comment_block(src: &Vec<char>, start: usize, line: u32, src_file_path: &str) -> Result<(usize, u32), PakhiErr> {
     let mut char_skipped: usize = 1;
     let mut lines_skipped: u32 = 0;
-    while src[start + char_skipped] != '#' {
-        if (start + char_skipped + 1) > src.len() - 1 {
+    loop {
+        if start + char_skipped >= src.len() {
             return Err(SyntaxError(line, src_file_path.to_string(), "Comment block wasn't closed".to_string()))
         }
-        if src[start + char_skipped] == '\\' && src[start + char_skipped + 1] == '#' {
+        if src[start + char_skipped] == '#' {
+            break;
+        }
+        if src[start + char_skipped] == '\\' && start + char_skipped + 1 < src.len()
+            && src[start + char_skipped + 1] == '#'
+        {
             // if # escaped with \ skipping this #
             char_skipped += 2;
             continue;
         }
-        char_skipped += 1;
         if src[start + char_skipped] == '\n' {
             lines_skipped += 1;
         }
+        char_skipped += 1;
     }
     // skipping last #
     char_skipped += 1;
